@@ -19,6 +19,22 @@ CHECKS = {'C01': {'text': 'Lean theorems about an interleaving transition system
                  'source. Liveness is proved in the `_partial` form; the full form is false on the pinned tree (5 known findings).',
          'technique': 'Lean 4 proof (inductive invariants + termination measure over an interleaving model) + outcome-set correspondence under a '
                       'deterministic scheduler'},
+ 'C02': {'text': 'Lean theorems over the forwarding model (all method names, args, kwargs, aliases, context names, any number of concurrent callers '
+                 'and arrival orders): proxy_eq_direct_partial / proxy_eq_direct (outcome of a blocking or non-blocking proxy call = outcome of the '
+                 "direct call, local and peer placement, given pickle round-trips the call's values), payload_untouched, transfer_ok, "
+                 'round_trip_restores_addresses, kwargs_and_args_preserved, stub_sends_own_name(+_gen from the AST of rpc.py, Gen/StubBinding.lean), '
+                 'unique_address_injective, issued_addresses_nodup, reply_goes_to_requester, concurrent_callers_own_outcome; decide witness '
+                 'proxy_eq_direct_false_for_pinned_params. Tie: differential testing of a direct object against local/peer proxies (simulated '
+                 'network under the deterministic scheduler; real loopback TCP in thorough) over structured random values (ints, floats incl. '
+                 'nan/inf, str incl. astral, bytes, containers, numpy arrays/scalars, named tuples, enums, dataclasses, QMI exceptions), concurrent '
+                 'callers with colliding request ids, and line-by-line replay of the tapped message-level trace on the Lean driver.',
+         'note': 'Value fidelity across pickle is VALIDATED DIFFERENTIALLY, NOT PROVED (theorems assume decode(encode v)=v; values plain pickle does '
+                 'not reproduce are outside the quantifier, excluded and counted). Full statement false on the pinned tree: keywords named '
+                 'context/rpc_object_address/method_name/rpc_lock_token raise TypeError at the proxy (4 known findings). rpc_timeout is treated as a '
+                 'reserved proxy keyword. Trusted: taps/value generator/equality in harness/props/_c02_*.py, stubKwargs as model of Python argument '
+                 'binding, lock state as an input (C04), framing (C06).',
+         'technique': 'Lean 4 proof (forwarding/routing model, unbounded callers) + AST translator (stub binding) + differential testing and trace '
+                      'refinement against the real code under a deterministic scheduler'},
  'C03': {'text': 'Lean theorems over all reachable states of an interleaving model of the request path as a pipeline of FIFO stages (unboundedly '
                  'many caller threads, contexts, objects, requests; actions '
                  'start/issue/enqLocal/enqRemote/loopRun/wireDeliver/workerPop/workerFinish): fifo_pipeline (for every caller c and object o the '
@@ -35,6 +51,24 @@ CHECKS = {'C01': {'text': 'Lean theorems about an interleaving transition system
                  'overlap/second-thread oracle on explored schedules (300 quick / 7000 thorough). Assumes each caller thread issues its calls '
                  'through one context; replies, removal, disconnects, lock requests are out of this model (C01/C04).',
          'technique': 'Lean 4 proof (inductive invariant over an interleaving pipeline model) + trace refinement under a deterministic scheduler'},
+ 'C04': {'text': 'Lean theorems over every system state (any number of context instances incl. same-named, proxies, tokens) and, by induction, every '
+                 'finite history: gen_eq_spec_partial/_of_fix (generated lock table = reference for all token values), gen_no_other_crash, '
+                 'guard_eq_spec, single_owner, lock_free_object, only_owner_executes(+_history), refused_without_executing, owner_gets_through, '
+                 'count_changes_only_by_execution, release_only_by_owner_or_force(+_history), is_locked_truthful, '
+                 'lock_requests_total_partial/_of_fix, no_hang_without_force_on_unlocked, nb_token_in_sync, auto_tokens_distinct_partial, '
+                 'only_holder_executes_partial; negation witnesses gen_eq_spec_false, lock_requests_total_false, auto_tokens_distinct_false, '
+                 'lock_granted_means_owner_false. Gen/LockFsm.lean is regenerated every run by executing the real '
+                 '_handle_lock_rpc_request/_handle_method_rpc_request on a stub thread for every (action, state, token relation) cell; 400 random '
+                 'histories (quick) + exhaustive cell sweep on real QMI_Context instances over loopback TCP, diffed with the model driver and judged '
+                 'by an independent ideal-lock oracle.',
+         'note': 'Full statements gen_eq_spec, lock_requests_total, auto_tokens_distinct, lock_granted_means_owner are FALSE on the pinned tree (3 '
+                 'root causes: force_unlock of an unlocked object kills the worker; same-named client contexts share automatic tokens; denied lock '
+                 'with the ACCESS_DENIED placeholder reported as granted); proved in _partial form + negation witness. Trusted: translator (tokens '
+                 'only compared — checked with randomised tokens), proxy-side model and mkToken tied by correspondence only, message transport '
+                 'exercised not verified, lock(timeout>0) not modelled, sequential histories, in-process same-named contexts stand for separate '
+                 'processes.',
+         'technique': 'Lean 4 proof (generated finite table + inductive invariants over op histories) + executing translator + differential '
+                      'correspondence on real contexts + ideal-lock oracle'},
  'C05': {'text': 'Lean theorems over every class table (MRO of member tables name↦kind + instance dict) and every name (all strings via an injective '
                  'encoding, proved): dispatch_sound (WellFormed C → ∀n, invokable↔advertised ∧ (¬invokable → no effects ∧ unknown-RPC reply)), '
                  'absent_name_rejected, invokable_only_declared, protected_names_never_advertised/_rejected, wellFormed_iff (WellFormed ⇔ property '
@@ -50,12 +84,78 @@ CHECKS = {'C01': {'text': 'Lean theorems about an interleaving transition system
                  '_model, _ttreadmax, _max_dev_num, _ps_attr, controller_address).',
          'technique': 'Lean 4 proof (generic theorem + generated per-class obligations by decide +kernel) + differential correspondence of every '
                       'shipped and generated class through the real dispatch path'},
+ 'C06': {'text': 'Lean theorems over all byte strings, segmentations, payload lists, handler/pending/connection tables (induction, no bounds) about '
+                 'a branch-by-branch model of _PeerTcpConnection (_receive_data loop, _process_message, close/_clear_pending_requests, send_message, '
+                 'receive_handshake) and _SocketManager: chunking_invariance / all_segmentations / single_bytes, frame_roundtrip, '
+                 'delivers_exactly(+_any_segmentation), violation_closes + violation_delivers_nothing_more with instances for wrong marker, oversize '
+                 'length (size_limit_exact), undecodable / non-message payload, missing / wrong-direction / repeated(_partial) handshake, foreign '
+                 'source / destination; closed_is_absorbing; pending_all_failed_partial, eof_/violation_/loss_fails_pending_partial; isolation, '
+                 'send_isolation; decide-checked negation witnesses where the full statement is false. Tie: the real '
+                 'MessageRouter/_SocketManager/_PeerTcpConnection driven single-threaded through in-memory sockets; real pickled QMI messages, 19 '
+                 'fault kinds at random frame index/offset, 8 cut modes down to single bytes, random pending sets at loss, a bystander connection, '
+                 'reduced and real MAX_MESSAGE_SIZE; every recv of the real code is one op line for the Lean driver (3.2k scenarios / 120k recv '
+                 'quick) plus an independent reference oracle after every step.',
+         'note': 'Trusted: Lean kernel + 3 axioms; the fake socket/loop harness (c06_fakes.py) and its taps; pickle as token oracle; TCP FIFO and '
+                 'asyncio reader dispatch modelled; socket-manager code run single-threaded; handler behaviour is a model parameter; '
+                 'receive_handshake tied by correspondence only. 3 known findings: nameless handshake can be repeated; _clear_pending_requests '
+                 'aborts on a non-delivery exception of a handler and lets it escape.',
+         'technique': 'Lean 4 proof (induction over byte streams / frame lists) + recv-by-recv differential correspondence with the real connection '
+                      'layer over in-memory sockets + independent reference oracle'},
  'C09': {'text': 'Lean theorems (induction over all op sequences, all capacities ≥ 1, both policies): len_le_cap, queue_sorted, seq_strict_mono_out, '
                  'accounting (permutation of range next), gap_is_lost/gap_count, policy_old/new, getNext_total. Model tied to QMI_SignalReceiver by '
                  'op-sequence differential runs (20k scenarios quick) plus a direct oracle.',
          'note': 'Trusted: Lean kernel + 3 standard axioms; correspondence harness and its generator; deque(maxlen) and threading.Condition are '
                  'modelled/exercised, not verified. Blocking get_next_signal is exercised with real threads only.',
          'technique': 'Lean 4 proof (inductive invariant over op sequences) + differential correspondence with the real class'},
+ 'C10': {'text': 'Lean theorems over all reachable states / all finite histories of an interleaving model of the task lifecycle (task thread: '
+                 'initOk/initFail/wake/runEnter/updCheck/updPop/runEnd/mark/threadEnd; runner constructor; serialised runner operations '
+                 'startCheck+startKick, stopRegion+stopSet, blocking join, isRunning, setSettings/getSettings/getPending; one action per `with '
+                 '_state_cond` region): run_at_most_once(+_hist), run_only_after_start(+_hist), stop_first_never_runs(+_hist), second_start_refused '
+                 '/ start_after_stop_refused, first_start_accepted, start_never_asserts, join_returns_only_when_finished, join_raises_iff_exception, '
+                 'join_after_stop_first_not_stuck, is_running_iff_running, update_true_iff_posted_since_last and settings_newest_wins (incl. a post '
+                 'between the emptiness test and the pop), pending_is_newest. Tie: the real context, task proxy (incl. with-form), QMI_TaskRunner '
+                 'and _TaskThread under the deterministic scheduler with scripted task bodies and random runner histories (2.9k scenarios quick / '
+                 '22k thorough); taps at every protected region, the stop flag and every settings-deque operation give a linearised event log that '
+                 "the Lean driver replays (each event enabled, same result, same state abstraction; a reported 'join waits for ever' must be a model "
+                 'state where join is disabled); independent oracle.',
+         'note': 'Trusted: Lean kernel + 3 axioms; detsched/simworld harness and the taps. Region = one action; deque(maxlen=1) modelled as an '
+                 'Option slot (real deque contents reported); RPC serialisation (C03), signal publication in update_settings (C07), wake-up in '
+                 'stop_task (C11), _request_shutdown and QMI_LoopTask are outside the model. No defect found.',
+         'technique': 'Lean 4 proof (inductive invariant over an interleaving transition system + history lemmas) + trace refinement under a '
+                      'deterministic scheduler + independent property oracle'},
+ 'C11': {'text': 'Lean theorems over all runs and all interleavings (closure_sound: a set containing the initial states and closed under every '
+                 "thread's step contains every reachable state) of systems built from programs REGENERATED on every run from the AST of stop_task, "
+                 'wait_for_condition, QMI_Task.sleep, pubsub._wait_for_condition, get_next_signal, QMI_LoopTask.run (Gen/SyncProgs.lean; generic '
+                 'interpreter for locks/conditions/events/slot/calls/try-finally). Per system (sleep; get_next_signal with and without timeout + '
+                 'publisher; loop task; two stop requests) the kernel computes the reachable set and checks closure and all obligations (decide '
+                 '+kernel): no_lost_wakeup, no_deadlock, no_thread_error_and_flag_set, wait_after_stop_does_not_park, released_with_stop_exception, '
+                 'sleep_interruptible, loop_task_finalises; negative witness lookup_before_flag_loses_wakeup. Tie: real context/task/proxy under the '
+                 'deterministic scheduler with line-level yield points; stop request swept over every yield index (6.7k schedules quick / 68k '
+                 'thorough); each primitive-operation trace must be a path of the generated system; oracle: stop exception seen, join returns, 0 s '
+                 'virtual time between stop() and release, loop_finalize ran once.',
+         'note': 'Trusted: Lean kernel + propext/Quot.sound; translator tr_syncprogs.py (partial evaluation for state RUNNING, data-dependent '
+                 'branches as nondeterministic choice) validated by trace following; semantics of threading primitives as modelled, time abstract; '
+                 'publisher critical section atomic; liveness in the form no deadlock + no lost wake-up + task-only time-out-free run ends in the '
+                 'stop exception within 40 steps, under fairness; kernel-checked systems ≤ 229 states each, bigger products only by native '
+                 'exploration. No defect found.',
+         'technique': 'Lean 4 proof (generic closure lemma + per-generated-system reachable set and obligations by decide +kernel) + source->model '
+                      'translator + systematic schedule sweep / trace refinement under a deterministic scheduler'},
+ 'C12': {'text': 'Lean theorems over all finite histories with faults at any constructor / release step / stop handler / start step (invariant WF, '
+                 'induction): name_unique, duplicate_refused, failed_ctor_no_residue, remove_no_residue, make_remove_no_residue, '
+                 'name_free_after_failed_ctor/remove, stop_releases_each_once (count = 1), released_at_most_once, '
+                 'stop_ends_all_threads_and_connections, call_never_hangs, stale_proxy_fails_promptly, no_restart, double_start_stop_usage_error; '
+                 'stop‖make over all schedules (stop_make_all_schedules, race_exists). False on the pinned tree, negation proved and replayed: '
+                 'failed_start_leaves_nothing_false, process_can_start_again_false (+ singleton_stuck_forever; _partial versions state what holds). '
+                 'Tie: state-refinement runs on real contexts under the deterministic scheduler and in-memory network (3.7k scenarios quick): after '
+                 'every op the object map, handler map, live managers/threads, sockets, release order and events are compared with the model; '
+                 "stop‖make outcomes must lie in the model's outcome set; independent oracle.",
+         'note': 'Trusted: Lean kernel + 3 axioms; harness (taps, detsched, simnet) and generators. Modelled not verified: OS thread teardown, '
+                 'sockets (simnet; UDP bind fault injected), name validity as input flag, SignalManager/$pubsub, non-Exception stop handlers. '
+                 'stop‖make theorems are for the $context-only population (larger populations by exhaustive exploration in the driver). Known '
+                 'findings: no roll-back in QMI_Context.start / context_singleton.start (8 signatures), stop‖make race on the unregistered handler '
+                 '(1).',
+         'technique': 'Lean 4 proof (inductive invariant over op histories; exhaustive kernel decide over schedules lifted to all schedules) + '
+                      'refinement correspondence with the real classes under a deterministic scheduler'},
  'C13': {'text': 'Lean theorems about an executable model of QMI_Tcp/Udp/SerialTransport (read, read_until, read_until_timeout, discard_read, open, '
                  'close; device = oracle script of recv results data|timeout|eof with elapsed virtual time, i.e. every packetisation and arrival '
                  'timing), for all states, scripts, terminators (any length), counts, time-outs (None/0/+/-) and all op sequences incl. the device '
@@ -75,6 +175,40 @@ CHECKS = {'C01': {'text': 'Lean theorems about an interleaving transition system
                  'on real sockets with t=0).',
          'technique': 'Lean 4 proof (stream-accounting invariant by induction over fuel-recursive loop models and op lists) + op-sequence '
                       'correspondence with device-interaction traces against scripted devices'},
+ 'C14': {'text': 'Lean theorems over all strings, all well-typed default dictionaries, both platforms and all tables passing EnvOk '
+                 '(Gen/TransportTables.lean regenerated from the live parser instances, constructor signatures and create_transport AST): '
+                 'escapes_classified/total_partial (only QMI_TransportDescriptorException escapes outside four exactly named input classes), '
+                 'total_false + six decide witnesses (full totality is false on the pinned tree), '
+                 'faithful/defaults_only_fill/defaults_fill_absent/foreign_defaults_dropped/create_faithful (every attribute = typed token, else '
+                 'default, else ctor default), roundtrip_usbtmc/tcp/udp/vxi11, hex_id_roundtrip, decimal_roundtrip. Model tied to qmi.core.transport '
+                 'by differential runs (120k create_transport cases quick: grammar-valid, one mutation, arbitrary; × random defaults × platform; '
+                 'plus parse_parameter_strings, _parse_parts, int/float/host/inet_pton/_format_resources streams) and an independent property oracle '
+                 'incl. list->parse round trips.',
+         'note': "Known findings (11 signatures): ValueError on 'k=v=w', ValueError on NUL host, IndexError on empty default host, TypeError for "
+                 "serial without baudrate / usbtmc without ids / udp with connect_timeout, USB serials containing ':' or '=' do not round-trip. "
+                 'Trusted: regex/int()/float()/inet_pton re-implementations and the __init__/_validate_* bodies are hand-modelled and checked only '
+                 "differentially; gethostbyname('localhost') pinned; lone-surrogate strings and ill-typed defaults out of scope; pyvisa stubbed, "
+                 'transports never opened.',
+         'technique': 'Lean 4 proof (generic over regenerated tables; decide witnesses; symbolic round-trip proofs) + translator + differential '
+                      'correspondence with near-miss generator + direct oracle'},
+ 'C15': {'text': 'Composite of part A (SCPI, USBTMC; Props/C15.lean, 27 theorems) and part B (Interbus, APT, T2; Props/C15B.lean, 55 theorems), all '
+                 'over unbounded payloads/lengths/splits, no _partial. A: scpi_ask_roundtrip, scpi_missing_terminator_errors, scpi_ask_sound, '
+                 'readBinary_roundtrip/encodeBlock (1..9 digits), bad hash/digit count/length/tail => QMI_InstrumentException, '
+                 'readBinary_total/sound; USBTMC device_decodes_write(s) (spec device decoder ∘ write_raw = payload for all max_transfer_size ≥ 1), '
+                 'writeRaw_aligned4, writeRaw_eom_only_last, btag_cycle, readRaw_reassembles (every split), readRaw_refines_hostSpec, '
+                 'incomplete/short-header errors. B (constants, ctypes layouts, escape tables regenerated into Gen/Layouts.lean from the source, '
+                 'side conditions by decide): unescape_escape, escape_no_terminator, crc_appended_is_zero (algebraic), crc_detects_single_byte, '
+                 'decode_encode, bad_crc_rejected, corrupted_frame_rejected, request_response (fuel MAX_RETRY_COUNT), request_response_delivers; APT '
+                 'unpack_pack/pack_unpack, write_data_wire (dest|0x80, length), ask_checks_id/ask_ok_id; T2 batch_split_invariance, counter_spec, '
+                 'timestamp_spec. Tie: the real ScpiProtocol, usbtmc.Instrument, Interbus codec/protocol, AptProtocol + packet classes, '
+                 '_T2EventDecoder driven through scripted fake transports/endpoints, diffed line by line with the Lean drivers (258k cases quick); '
+                 'oracle = independent reference devices written from IEEE 488.2 / USBTMC 1.0 / NKT / APT / PicoQuant documents.',
+         'note': 'Trusted: Lean kernel + 3 axioms; translators (AST patterns, fail loudly) and the reference devices; transports below the codecs '
+                 'are harness fakes (real transports: C13); struct/ctypes/bytes.replace/numpy shift-mask-cumsum mirrored and differentially checked; '
+                 'uint64 wrap out of scope; Rigol/Advantest quirk paths differential only. No known findings. Observation outside the statement: '
+                 'read_raw does not validate MsgID/bTag of Bulk-IN headers (theorem readRaw_tag_fields_unchecked).',
+         'technique': 'Lean 4 proof (round-trip/soundness laws by induction, algebraic CRC residue, generated-layout obligations by decide) + '
+                      'differential correspondence with independent reference devices'},
  'C16': {'text': 'Lean theorems over all lines/texts/trees/type descriptors (mutual structural recursion, no bounds): strip_exact, '
                  'strip_comments_exact, load_ignores_comments, duplicate_key_rejected/load_ok_iff, strip_render_id + load_dump_roundtrip (json as '
                  'parameter), admits_iff (parser = independent inductive spec Admits), admits_functional, roundtrip (parseValue τ (toDict v) = ok '
